@@ -417,6 +417,9 @@ func maskOf(sig string) int {
 	if strings.Contains(sig, "close-queues-use") {
 		m |= 8
 	}
+	if strings.Contains(sig, "rows-close-waits-for-execution") {
+		m |= 16
+	}
 	return m
 }
 
@@ -626,6 +629,32 @@ func sig(in Input, tr []Ev) string {
 		}
 		if cut && busy {
 			found["commit-waits-for-execution"] = true
+		}
+	}
+	// rows-close-waits-for-execution: a Reset/Close/eviction falls into a pool-level query/row between
+	// its start and the driver's answer to its execution, and at that answer an execution of another
+	// goroutine is with the driver
+	for _, w := range ws {
+		if w.op.Tx || (w.op.K != "query" && w.op.K != "row") || w.execcall < 0 || w.execret < 0 {
+			continue
+		}
+		cut, busy := false, false
+		for _, r := range ws {
+			if r.t == w.t {
+				continue
+			}
+			if (r.op.K == "reset" || r.op.K == "close") && r.start < w.execret && r.end > w.start {
+				cut = true
+			}
+			if isUse(r.op) && r.badret >= 0 && r.badret < w.execret && r.badret > w.start {
+				cut = true
+			}
+			if r.execcall >= 0 && r.execcall < w.execret && (r.execret < 0 || r.execret > w.execret) {
+				busy = true
+			}
+		}
+		if cut && busy {
+			found["rows-close-waits-for-execution"] = true
 		}
 	}
 	var names []string
